@@ -1,0 +1,27 @@
+//go:build verif
+
+// Contracts of package nut14 for the govc verifier (/verif). Comment-only file,
+// compiled only with the build tag `verif`.
+package nut14
+
+//@ macro expired(t) = t.Locktime > 0 && clk.now > t.Locktime
+
+//@ func VerifyHTLCProof
+//@   tags C13
+//@   safety C06 C13
+//@   modifies hvs.last, hvs.calls, hvs.fails, clk.now
+//@   assumes r0 == htlc.verdict(proof, proofSecret, clk.now)
+//@   calls nut11.HasValidSignatures asserts @handed [C13] bytes(hash) == sha256(bytesOf(proof.Secret)) && signatures == htlcWitness.Signatures && ((expired(p2pkTags) && Nsigs == 1 && pubkeys == p2pkTags.Refund && len(p2pkTags.Refund) > 0) || (!expired(p2pkTags) && Nsigs == p2pkTags.NSigs && Nsigs > 0 && pubkeys == p2pkTags.Pubkeys))
+//@   ensures @preimage [C13] r0 == nil && !expired(p2pkTags) ==> hexok(htlcWitness.Preimage) && len(proofSecret.Data.Data) == 64 && hexenc(sha256(hexdec(htlcWitness.Preimage))) == proofSecret.Data.Data
+//@   ensures @sigs [C13] r0 == nil && !expired(p2pkTags) && p2pkTags.NSigs > 0 ==> hvs.calls == old(hvs.calls) + 1 && hvs.last && len(htlcWitness.Signatures) >= 1 && (forall i, j :: 0 <= i && i < j && j < len(htlcWitness.Signatures) ==> htlcWitness.Signatures[i] != htlcWitness.Signatures[j])
+//@   ensures @refund [C13] r0 == nil && expired(p2pkTags) && len(p2pkTags.Refund) > 0 ==> hvs.calls == old(hvs.calls) + 1 && hvs.last && len(htlcWitness.Signatures) >= 1
+//@   ensures @nosigcall [C13] r0 == nil && hvs.calls == old(hvs.calls) ==> (expired(p2pkTags) && len(p2pkTags.Refund) == 0) || (!expired(p2pkTags) && p2pkTags.NSigs <= 0)
+//@   ensures @onecall [C13] hvs.calls <= old(hvs.calls) + 1
+
+//@ func AddWitnessHTLC
+//@   tags C13
+//@   safety C06 C13
+
+//@ func AddWitnessHTLCToOutputs
+//@   tags C13
+//@   safety C06 C13
